@@ -146,7 +146,7 @@ def zoo(rnd):
         sub = coll.query_by_position(coll.start, coll.end, completely_within=cw) if rnd.random() < 0.5 else \
             coll.query_by_position(coll.start + (coll.end - coll.start) // 4, coll.end, completely_within=cw)
         if not sub.is_empty:
-            out.append(("annotation", sub))
+            out.append(("annotation", sub, agg_guids(coll)))
     except Exception:
         pass
     for g in coll.genes[:1]:
@@ -163,7 +163,7 @@ def zoo(rnd):
     # the same kinds again with qualifiers (rebuilt from dictionaries with qualifiers injected)
     K = kinds()
     extra = []
-    for kind, o in out:
+    for kind, o in [x[:2] for x in out]:
         d = obj_dict(kind, o)
         q = rnd.choice(QUALS)
         if q and "qualifiers" in d:
@@ -237,8 +237,18 @@ def perturb(kind, d, rnd):
     return d
 
 
-def replay(kind, obj, path, rnd):
-    """returns steps = [action, status, contentSame, guidSame, equalToOriginal]"""
+AGG_KEYS = ("gene_guid", "feature_collection_guid", "variant_collection_guid")
+
+
+def agg_guids(coll):
+    """identifiers of the aggregates (genes, feature collections, variant collections) of a collection"""
+    return {str(x.guid) for x in list(coll.genes) + list(coll.feature_collections) + list(coll.variant_collections)}
+
+
+def replay(kind, obj, path, rnd, inherit=None):
+    """returns steps = [action, status, contentSame, guidSame, equalToOriginal(, named deviation)]
+    inherit: for a collection that is the answer of a query, the aggregate identifiers of the collection it was taken
+    from (the named deviation of known finding serial:agg-guid-inherited-across-chunks is recognised against them)"""
     K = kinds()
     cls, Model, from_name, to_name = K[kind]
     par = parent_of(kind, obj)
@@ -333,7 +343,20 @@ def replay(kind, obj, path, rnd):
                     eq = (nxt == orig) and hash(nxt) == hash(orig)
                 except Exception:
                     eq = False
-            steps.append([a, "ok", same_content, same_guid, eq])
+            step = [a, "ok", same_content, same_guid, eq]
+            if a == "Rebuild" and same_content and not same_guid and kind == "annotation" and inherit is not None \
+                    and getattr(cur, "_parent_or_seq_chunk_parent", None) is not None:
+                # Named deviation (known finding): genes / feature collections / variant collections digest their
+                # CHUNK-RELATIVE location, and a query hands the aggregates of its source collection on with the
+                # identifier computed on the source's chunk.  Recognised only if nothing but aggregate-level
+                # identifiers differ and every differing one is literally an identifier of the source collection.
+                db, da = dict(gb), dict(ga)
+                diff = [p for p in db if db[p] != da.get(p)]
+                if diff and set(db) == set(da) and all(
+                        p.rsplit("/", 1)[1] in AGG_KEYS and str(db[p]) in inherit for p in diff):
+                    step.append("agg-guid-from-other-chunk")
+                    orig = nxt
+            steps.append(step)
         cur, form = nxt, nf
     return steps
 
@@ -344,9 +367,10 @@ def _replay_events(args):
     rnd = random.Random(seed)
     ev = []
     for _ in range(nzoo):
-        for kind, obj in zoo(rnd):
+        for item in zoo(rnd):
+            kind, obj = item[:2]
             for path in rnd.sample(paths, min(len(paths), 25)):
-                ev.append(["path", kind, replay(kind, obj, path, rnd)])
+                ev.append(["path", kind, replay(kind, obj, path, rnd, inherit=item[2] if len(item) > 2 else None)])
     return ev
 
 
@@ -379,7 +403,7 @@ def sweep(chk, seeds):
     items = []
     K = kinds()
     for _ in range(12 if chk.quick else 60):
-        for kind, o in zoo(rnd):
+        for kind, o in [x[:2] for x in zoo(rnd)]:
             d = norm(strip_guids(obj_dict(kind, o)))
             if kind != "annotation":
                 pass
@@ -421,6 +445,8 @@ def sweep(chk, seeds):
 def _key(ev, clause):
     if clause == "Pickle:fails" and ev[0] == "path" and ev[1] != "annotation":
         return "serial:pickle-non-collection"
+    if clause == "Rebuild:aggregate-identifier-inherited-from-other-chunk":
+        return "serial:agg-guid-inherited-across-chunks"
     return None
 
 
